@@ -4,16 +4,19 @@
    Observed on the real WebsocketLayer placed between two in-memory peers (props/C28.py): what the peers put on the
    wire is written by the harness, what mitmproxy sends is decoded by wsproto peers plus an RFC 6455 frame reader.
    d is the direction of travel: "c2s" (sent by the client, delivered to the server) or "s2c".
-     [k |-> "msg_in", d, typ, c, frags, split]   peer finished sending a message: type "text"|"binary", content c,
+     [k |-> "msg_in", d, typ, c, frags, split, ictl, z]
+                                                 peer finished sending a message: type "text"|"binary", content c,
                                                  frame payload lengths; split: a frame boundary falls inside a
-                                                 multi-byte character (text only)
+                                                 multi-byte character (text only); ictl: the peer sent a ping/pong
+                                                 between the fragments; z: permessage-deflate is in use
      [k |-> "inject", d, typ, c, mid, mb]        an addon injects a message for direction d; mid: the peer of that
                                                  direction is in the middle of a fragmented message; mb: text with
                                                  multi-byte characters
      [k |-> "hook", d, typ, c, inj]              websocket_message hook: flow.websocket.messages[-1] as recorded
      [k |-> "hook_done", act, c, mb]             the addon returns: act "keep"|"edit"|"drop"; c = content now recorded
      [k |-> "deliver", d, typ, c, frags]         the receiving peer decoded one complete message
-     [k |-> "ctl_in", d, op, c] / "ctl_out"      ping/pong sent by a peer / received by the other peer
+     [k |-> "ctl_in", d, op, c, mid, z]          ping/pong sent by a peer (mid: between the fragments of a message)
+     [k |-> "ctl_out", d, op, c]                 ping/pong received by the other peer
      [k |-> "close_in", d, code, reason]         close frame sent by the peer of direction d (no code: 1005, "")
      [k |-> "eof", d]                            that peer closed its connection without a close frame
      [k |-> "closed", by, code, reason]          websocket_end hook: flow.websocket.closed_by_client/close_code/reason
@@ -33,6 +36,7 @@ MonInit == [bad |-> <<>>, wit |-> {},
             ctl  |-> [d \in Dirs |-> <<>>],   \* <<op, c>> control frames not relayed yet
             cin  |-> [d \in Dirs |-> <<>>],   \* <<code, reason>> close frames the peer sent
             eof  |-> {},
+            zc   |-> {},                      \* directions in which a ping/pong was sent between compressed fragments
             closed |-> FALSE]
 
 RecOf(ev, s) == [d |-> ev.d, typ |-> ev.typ, c |-> ev.c, inj |-> ev.inj, st |-> "hook", act |-> "",
@@ -65,7 +69,9 @@ HookClause(m, ev) ==
             THEN <<"C28.injected_altered", s.typ, IF s.mid THEN "mid_message" ELSE "idle", Mb(s.mb)>> ELSE <<>>
   ELSE IF m.sent[ev.d] = <<>> THEN <<"C28.phantom_message", ev.typ, "peer">>
        ELSE LET s == Head(m.sent[ev.d]) IN
-            IF s.typ # ev.typ \/ s.c # ev.c THEN <<"C28.recorded_differs_from_sent", s.typ>> ELSE <<>>
+            IF s.typ # ev.typ \/ s.c # ev.c
+            THEN <<"C28.recorded_differs_from_sent", s.typ, IF s.ictl THEN "ctl_between_fragments" ELSE "contiguous",
+                   IF s.z THEN "deflate" ELSE "plain">> ELSE <<>>
 
 DeliverClause(m, ev) ==
   LET I == Todo(m, ev.d) IN
@@ -92,7 +98,8 @@ ClosedClause(m, ev) ==
         ELSE IF m.ctl[ev.by] # <<>> THEN <<"C28.control_not_relayed">>
         ELSE <<>>)
   ELSE IF ev.by \in m.eof THEN <<>>
-  ELSE <<"C28.close_misattributed">>
+  ELSE <<"C28.close_misattributed",
+         IF ev.by \in m.zc THEN "ctl_between_compressed_fragments" ELSE "other">>
 
 Clause(m, ev) ==
   CASE ev.k \in {"msg_in", "inject", "ctl_in", "close_in", "eof"} -> Lost(m)
@@ -107,9 +114,12 @@ Clause(m, ev) ==
 MonStep(m, ev) ==
   LET m1 == [m EXCEPT !.bad = Clause(m, ev)] IN
   CASE ev.k = "msg_in" ->
-         [m1 EXCEPT !.sent[ev.d] = Append(@, [typ |-> ev.typ, c |-> ev.c, frags |-> ev.frags, split |-> ev.split]),
+         [m1 EXCEPT !.sent[ev.d] = Append(@, [typ |-> ev.typ, c |-> ev.c, frags |-> ev.frags, split |-> ev.split,
+                                                      ictl |-> ev.ictl, z |-> ev.z]),
                     !.wit = @ \cup {ev.typ} \cup (IF Len(ev.frags) > 1 THEN {"fragmented"} ELSE {})
                               \cup (IF ev.split THEN {"split_char"} ELSE {})
+                              \cup (IF ev.ictl THEN {"ctl_between_fragments"} ELSE {})
+                              \cup (IF ev.z THEN {"deflate"} ELSE {"plain"})
                               \cup (IF HookIdx(m) # {} THEN {"input_while_hook_pending"} ELSE {})
                               \cup (IF \E i \in 1..Len(ev.frags) : ev.frags[i] = 0 THEN {"empty_fragment"} ELSE {})]
     [] ev.k = "inject" ->
@@ -131,7 +141,8 @@ MonStep(m, ev) ==
          IF Todo(m, ev.d) = {} THEN m1
          ELSE [m1 EXCEPT !.rec[MinOf(Todo(m, ev.d))].dl = TRUE,
                          !.wit = @ \cup {"deliver"} \cup (IF Len(ev.frags) > 1 THEN {"deliver_fragmented"} ELSE {})]
-    [] ev.k = "ctl_in"  -> [m1 EXCEPT !.ctl[ev.d] = Append(@, <<ev.op, ev.c>>), !.wit = @ \cup {ev.op}]
+    [] ev.k = "ctl_in"  -> [m1 EXCEPT !.ctl[ev.d] = Append(@, <<ev.op, ev.c>>), !.wit = @ \cup {ev.op},
+                                      !.zc = IF ev.mid /\ ev.z THEN @ \cup {ev.d} ELSE @]
     [] ev.k = "ctl_out" -> [m1 EXCEPT !.ctl[ev.d] = IF @ # <<>> THEN Tail(@) ELSE @, !.wit = @ \cup {"ctl_relayed"}]
     [] ev.k = "close_in" -> [m1 EXCEPT !.cin[ev.d] = Append(@, <<ev.code, ev.reason>>),
                                        !.wit = @ \cup {IF ev.code = 1005 THEN "close_without_code" ELSE "close_with_code"}]
